@@ -123,6 +123,22 @@ func init() {
 				cse.TimeoutMS = 90000
 				cs = append(cs, cse)
 			}
+			// limits near the top of the uint64 range: far away, so the run ends by its duration, not by the limit
+			for i, N := range []uint64{1 << 62, 1<<63 - 1, 1 << 63, 1<<63 + 12345, ^uint64(0) - 1, ^uint64(0)} {
+				mode := pick(r, "users", "constant")
+				p := c03Params{N: N, MustHit: false, Body: "sleep"}
+				if mode == "users" {
+					p.Spec = engine.Spec{Mode: "users", Concurrency: 4}
+				} else {
+					p.Spec = engine.RateSpec("constant", 4, 10, 4)
+				}
+				p.Spec.MaxIterations, p.Spec.MaxDurationMS, p.Spec.IgnoreDropped = N, 250, true
+				p.Desc = fmt.Sprintf("mode=%s N=%d (far limit) c=4 body=sleep", mode, N)
+				cse := core.MkCase("C03", "run", 9000+i, seed, p)
+				cse.Race = i%2 == 0
+				cse.TimeoutMS = 60000
+				cs = append(cs, cse)
+			}
 			np := 6
 			if tier == "thorough" {
 				np = 40
@@ -180,6 +196,10 @@ func c03Run(c *core.Case, o *core.Outcome) {
 		o.Violate("ceiling:"+p.Desc, "iteration function invoked %d times with max-iterations %d (%s)", S, p.N, p.Desc)
 		return
 	}
+	if !p.MustHit && S == 0 {
+		o.Violate("far-limit:"+p.Desc, "max-iterations %d is far away but no iteration ran at all in a %d ms run (%s)", p.N, p.Spec.MaxDurationMS, p.Desc)
+		return
+	}
 	if p.MustHit && uint64(S) != p.N {
 		o.Violate("exact:"+p.Desc, "trigger kept requesting until the limit stopped it, but the iteration function was invoked %d times, max-iterations %d (%s)", S, p.N, p.Desc)
 		return
@@ -193,8 +213,12 @@ func c03Run(c *core.Case, o *core.Outcome) {
 		o.Violate("result:"+p.Desc, "result reports %d+%d started iterations, %d bodies ran (%s)", su, fa, S, p.Desc)
 		return
 	}
-	o.AddObs("limit_reached_runs", 1)
-	if k.HighWater.Load() >= 2 {
+	if p.MustHit {
+		o.AddObs("limit_reached_runs", 1)
+	} else {
+		o.Sig("farlimit:N>2^63=%v", p.N > 1<<63)
+	}
+	if k.HighWater.Load() >= 2 && p.MustHit {
 		o.AddObs("competed_runs", 1)
 		cRel := "c<N"
 		if uint64(p.Spec.Concurrency) == p.N {
